@@ -590,7 +590,7 @@ class C20(Prop):
     level = "proof"
     technique = ("Lean 4 theorems: nothing but the time stamps depends on the std flag (per step); configuration differential: the harness is built "
                  "against /repo in std, alloc, std+serde and alloc+serde and fed identical operations; serde_json round trips")
-    rule = ("structured + malformed frames (decode, render, velocity, CPR pairing) and tracker histories without clock operations through the std and the "
+    rule = ("structured + malformed frames (decode, render, velocity), CPR pairings (random raw pairs and rounding ties of the zone indices) and tracker histories without clock operations through the std and the "
             "alloc-only build: outputs must be byte-identical; serde_json round trip (Debug text equal) of every decodable frame and of the tracker after "
             "every history in the std+serde and alloc+serde builds")
     claim = ("run_erase / builds_agree / records_agree: for EVERY history of frames, the std build (any clock readings) and the alloc-only build end in states equal up to the "
@@ -607,6 +607,12 @@ class C20(Prop):
         # boundary addresses as map keys (the tracker is serialized with the address text as key): zero, leading zeros, all ones
         ops += gentrack.history(rng, 60, n_planes=4, with_time=False, addrs=[0x000000, 0x000001, 0x00000A, 0xFFFFFF])
         ops += gentrack.history(rng, 60, n_planes=4, with_time=False, addrs=[0x0ABCDE, 0x100000, 0x00FF00, 0x000100])
+        # CPR pairing where the two builds could use different float primitives: rounding ties of the zone indices, random raw pairs
+        ops += cpr_tie_ops(rng, 400 if tier == "quick" else 4000)
+        for k in range(2000 if tier == "quick" else 40000):
+            fe = gentrack.adsb(0x123456, gentrack.me_position(11, 0x0c5, 0, rng.bits(17), rng.bits(17)))
+            fo = gentrack.adsb(0x123456, gentrack.me_position(11, 0x0c5, 1, rng.bits(17), rng.bits(17)))
+            ops.append("P %s %s" % ((bytes(fe).hex(), bytes(fo).hex()) if k % 2 else (bytes(fo).hex(), bytes(fe).hex())))
         return ops
     def equal(self, a, m): return a == m or numeq(a, m) or a.startswith("TXT")    # renderings are compared by C11, here std vs alloc
     def project(self, op, line): return line if not line.startswith("TXT") else "TXT"
@@ -637,6 +643,49 @@ class C20(Prop):
             ctx.extra["serde_roundtrips_" + feat.replace(",", "_")] = n
         return failing
 
+def cpr_tie_ops(rng, n):
+    """CPR pairs whose zone index computation lands exactly on a rounding tie: 59*YZ0 - 60*YZ1 (latitude index j) or (NL-1)*XZ0 - NL*XZ1
+    (longitude index m) equal to an odd multiple of 2^16, of either sign, so that floor(x + 1/2) is applied to ... -1.5, -0.5, 0.5, 1.5 ...;
+    the other coordinate is taken from a consistent position so that the pair passes the latitude / NL checks"""
+    import gentrack, cprspec
+    from fractions import Fraction as Fr
+    ops = []
+    def solve(a, c):
+        # x0, x1 in [0, 2^17) with (a-1)*x0 - a*x1 = c   ((a-1) = -1 mod a, so x0 = -c mod a)
+        if a < 2: return None
+        for _ in range(20):
+            x0 = (-c) % a + a * rng.below((1 << 17) // a)
+            num = (a - 1) * x0 - c
+            if num % a: continue
+            x1 = num // a
+            if 0 <= x0 < (1 << 17) and 0 <= x1 < (1 << 17): return x0, x1
+        return None
+    while len(ops) < n:
+        k = rng.choice([-1, -1, -2, -3, 0, 1, 2, -10, 10, -29, 28, rng.below(119) - 59])
+        c = (2 * k + 1) << 16
+        if rng.chance(1, 2):
+            r = solve(60, c)                       # latitude index on a tie; longitudes from a true position
+            if not r: continue
+            yz0, yz1 = r
+            lo = Fr(rng.below(360000) - 180000, 1000)
+            la = cprspec.decode((yz0, 0), (yz1, 0), False)
+            la = la[0] if la else Fr(0)
+            xz0 = cprspec.encode(la, lo, False)[1]; xz1 = cprspec.encode(la, lo, True)[1]
+        else:
+            la = Fr(rng.below(170000) - 85000, 1000); lo = Fr(rng.below(360000) - 180000, 1000)
+            yz0 = cprspec.encode(la, lo, False)[0]; yz1 = cprspec.encode(la, lo, True)[0]
+            d = cprspec.decode((yz0, 0), (yz1, 0), False)
+            if not d: continue
+            nl = cprspec.nl_table(float(d[0]))
+            r = solve(nl, c)
+            if not r: continue
+            xz0, xz1 = r
+        fe = gentrack.adsb(0x123456, gentrack.me_position(11, 0x0c5, 0, yz0, xz0))
+        fo = gentrack.adsb(0x123456, gentrack.me_position(11, 0x0c5, 1, yz1, xz1))
+        for first_even in (True, False):
+            ops.append("P %s %s" % ((bytes(fe).hex(), bytes(fo).hex()) if first_even else (bytes(fo).hex(), bytes(fe).hex())))
+    return ops
+
 class C05(Prop):
     id = "C05"; module = "Adsb.Theorems.C05"; design_ref = "5/C05"
     modules = ["Adsb.Theorems.C05", "Adsb.Theorems.C05b"]
@@ -645,7 +694,8 @@ class C05(Prop):
     rule = ("true positions on a lattice over the sphere, at the poles, the equator, the antimeridian, on both sides of each of the 58 NL transition "
             "latitudes and of latitude-zone boundaries, encoded exactly (Fractions) for an even and an odd report displaced by 0 / up to 2.9 NM, both orders: "
             "the implementation must return the latest true position within the quantisation error, or nothing when the two latitudes fall in different "
-            "NL zones; random raw quadruples and boundary values compared with an exact-arithmetic decoder (none/some, value, range); equal parities")
+            "NL zones; random raw quadruples and boundary values compared with an exact-arithmetic decoder (none/some, value, range); pairs whose zone index "
+            "lands exactly on a rounding tie (odd multiples of 2^16, both signs, latitude and longitude index); equal parities")
     claim = ("cpr_global_decode / cpr_position_error: for ALL rational positions with |lat| <= 90, latitudes within 0.05 deg (3 NM) and longitudes within the stated fraction of a zone, "
              "an even and an odd report produced by the DO-260B encoder decode, in either order, to exactly the latest report's position rounded to its own CPR grid (within half a bin, ~2.6 m), "
              "longitude in [-180,180); different NL bands give none (zone_mismatch_none); re-encoding gives the transmitted values (reencode_lat/lon); every returned position is in range "
@@ -698,6 +748,7 @@ class C05(Prop):
             fe = gentrack.adsb(0x123456, gentrack.me_position(11, 0x0c5, 0, q[0], q[1]))
             fo = gentrack.adsb(0x123456, gentrack.me_position(11, 0x0c5, 1, q[2], q[3]))
             ops.append("P %s %s" % ((bytes(fe).hex(), bytes(fo).hex()) if rng.chance(1, 2) else (bytes(fo).hex(), bytes(fe).hex())))
+        ops += cpr_tie_ops(rng, 600 if tier == "quick" else 6000)
         for k in range(200):
             f1 = gentrack.adsb(0x123456, gentrack.me_position(11, 0x0c5, k % 2, rng.bits(17), rng.bits(17)))
             f2 = gentrack.adsb(0x123456, gentrack.me_position(18, 0x0c5, k % 2, rng.bits(17), rng.bits(17)))
